@@ -152,6 +152,17 @@ def cleanAt (src : Src) (off : Int) : Bool :=
 
 def hasEval (ps : List Pre) : Bool := ps.any (fun p => match p with | .directEval .. => true | _ => false)
 
+/- does an argument list contain a direct eval (at any depth)? -/
+mutual
+def argHasEval : Arg → Bool
+  | .lit => false
+  | .call _ _ as => argsHasEval as
+  | .evalDirect .. => true
+def argsHasEval : Args → Bool
+  | .nil => false
+  | .cons a r => argHasEval a || argsHasEval r
+end
+
 /-- is the innermost activation a native one? -/
 def innermostNative (ls : List Level) : Bool :=
   match ls.getLast? with
@@ -164,7 +175,7 @@ def devUnrecorded (sc : Scenario) : Bool := sc.levels.any (fun lv => lv.via != .
 def devImplicit (sc : Scenario) : Bool := sc.levels.any (fun lv => lv.via == .implicit)
 /-- a direct eval completed earlier in some active activation -/
 def devEvalFile (sc : Scenario) : Bool :=
-  sc.levels.any (fun lv => hasEval lv.pre || lv.via == .evalDirect) || hasEval sc.pre
+  sc.levels.any (fun lv => hasEval lv.pre || argsHasEval lv.args || lv.via == .evalDirect) || hasEval sc.pre
 /-- the error is raised in script code without a usable `at` -/
 def devErrPos (sc : Scenario) : Bool :=
   match sc.raise with
